@@ -423,7 +423,7 @@ func (g *Gen) ttStruct() *Sexp {
 }
 
 func runC20(r *Runner, g *Gen, tier string) string {
-	n := scale(tier, 250, 15000)
+	n := scale(tier, 250, 40000)
 	for i := 0; i < n; i++ {
 		items := []*Sexp{A("tagtool"), A(g.r.Pick("0", "1")), A(g.r.Pick("0", "1", "1")), A(g.r.Pick("0", "1", "1"))}
 		for k := 1 + g.r.Intn(3); k > 0; k-- {
